@@ -2,5 +2,6 @@ SPECIFICATION Spec
 INVARIANT LOG_KeysUnique
 INVARIANT LOG_RemovedAreGone
 INVARIANT LOG_FunctionalAgrees
+INVARIANT LOG_StressColumns
 PROPERTY LOG_ReplaceKeepsPosition
 INVARIANT EmitAll
